@@ -1,10 +1,10 @@
 PROPERTY = "C03"
 ENTRY = {
         "text": "Access.tla (decision written from the statement: allow-list mode iff the allowed list is non-empty, admitted iff address or ClientID allowed, "
-                "else excluded iff address or ClientID disallowed; blocked names by exact / ||name^ / *.name / ||*^, optionally restricted to one query type ($dnstype); ClientID entries match up to letter case and IPv4-mapped entries denote the IPv4 address/prefix (how an entry is written is irrelevant); three /regexp/ rules; exception rules (@@) except a name from the list; an invalid ClientID label admits SERVFAIL or the denial; SetLists (API) and LoadConfig (server created/reconfigured from a configuration; empty blocked hosts = documented defaults) alternate in histories and only the lists given last, as GET /control/access/list reports them, decide; denial = no reply on UDP and DNSCrypt, REFUSED elsewhere; "
+                "else excluded iff address or ClientID disallowed; blocked names by exact / ||name^ / *.name / ||*^, optionally restricted to one query type ($dnstype); ClientID entries match up to letter case and IPv4-mapped entries denote the IPv4 address/prefix (how an entry is written is irrelevant); three /regexp/ rules; exception rules (@@) except a name from the list; an entry written with the final dot is the same entry; an invalid ClientID label admits SERVFAIL or the denial; SetLists (API) and LoadConfig (server created/reconfigured from a configuration; empty blocked hosts = documented defaults) alternate in histories and only the lists given last, as GET /control/access/list reports them, decide; denial = no reply on UDP and DNSCrypt, REFUSED elsewhere; "
                 "upstream, filter, query log and statistics move only for served requests) is model-checked by TLC over every history of <= 2 reconfigurations and "
                 "<= 2 requests of a small universe and enumerated over every disjoint pair of lists of size <= 2 out of 14 entries (IPs, CIDRs incl. /0 and full length, "
-                "both families, ClientIDs; 8.6e3 configurations x 32 addresses x 3 ClientIDs) and every blocked-hosts list of size <= 2 out of 22 patterns x 20 names x 5 query types. "
+                "both families, ClientIDs; 8.6e3 configurations x 32 addresses x 3 ClientIDs) and every blocked-hosts list of size <= 2 out of 24 patterns x 20 names x 5 query types. "
                 "Every configuration is installed as the last step of a seeded history of posts (respelled lists, allow list emptied/filled) on a live server through POST /control/access/set and its verdict table replayed through IsBlockedClient and "
                 "HandleBefore (address forms plain / 4-in-6 / zoned, ClientID and name spellings, query types, six transports); a seeded sample goes through real UDP, TCP, "
                 "DoT, DoQ and DNSCrypt sockets and the DoH handler with recording upstream / filter / query log / statistics. Random list sets over 8-bit universes are "
@@ -13,6 +13,6 @@ ENTRY = {
         "note": "Trusted: TLC, conc()/abs() of zz_verif_c03_test.go, the recording doubles. IPv6, zoned and IPv4-mapped client addresses are exercised at HandleBefore / DoH-handler "
                 "level (plus one end-to-end UDP probe over a link-local address when the host has one); DNSCrypt over TCP is not exercised. UDP/DNSCrypt silence is measured "
                 "against a control query answered afterwards. The rule engine's substring reading of *.name is left open (spec admits both answers). "
-                "Two findings (zoned addresses vs exact-IP entries, IPv4-mapped addresses vs IPv4 entries) were found and are fixed in /repo; three more (capital ClientID entries, IPv4-mapped entries, lower-cased regexp rules) are fixed as well; one is open with a proposed fix (exception rules of blocked_hosts act as blocking rules).",
+                "Two findings (zoned addresses vs exact-IP entries, IPv4-mapped addresses vs IPv4 entries) were found and are fixed in /repo; three more (capital ClientID entries, IPv4-mapped entries, lower-cased regexp rules) are fixed as well; a further one (exception rules acting as blocking rules) is fixed; one is open with a proposed fix (blocked_hosts entries written with the final dot are inverted).",
         "technique": "TLA+ spec model-checked and enumerated by TLC; exhaustive verdict-table replay into a real server + real-transport sample + TLC trace validation",
     }
